@@ -43,6 +43,105 @@ impl Out {
 }
 
 // ------------------------------------------------------------------------------------------------
+// replay: JSON forms of diagrams, and re-execution of one recorded case (./check <id> --replay <file>)
+fn atom_json(a: &Atom) -> Value {
+    match a {
+        Atom::Mapping(i) => json!(["mapping", i]),
+        Atom::List(i) => json!(["list", i]),
+        Atom::Map(i) => json!(["map", i]),
+        Atom::Set(i) => json!(["set", i]),
+    }
+}
+fn atom_from_json(v: &Value) -> Option<Atom> {
+    let i = v.get(1)?.as_u64()? as usize;
+    match v.get(0)?.as_str()? {
+        "mapping" => Some(Atom::Mapping(i)),
+        "list" => Some(Atom::List(i)),
+        "map" => Some(Atom::Map(i)),
+        "set" => Some(Atom::Set(i)),
+        _ => None,
+    }
+}
+fn bdd_json(b: &Bdd) -> Value {
+    match b {
+        Bdd::True => json!(true),
+        Bdd::False => json!(false),
+        Bdd::Node { atom, left, middle, right } => json!({"atom": atom_json(atom), "left": bdd_json(left), "middle": bdd_json(middle), "right": bdd_json(right)}),
+    }
+}
+fn bdd_from_json(v: &Value) -> Option<Rc<Bdd>> {
+    if let Some(b) = v.as_bool() {
+        return Some(Rc::new(if b { Bdd::True } else { Bdd::False }));
+    }
+    Some(Rc::new(Bdd::Node { atom: atom_from_json(v.get("atom")?)?, left: bdd_from_json(v.get("left")?)?, middle: bdd_from_json(v.get("middle")?)?, right: bdd_from_json(v.get("right")?)? }))
+}
+
+fn replay(file: &str) -> Value {
+    let doc: Value = match std::fs::read_to_string(file).ok().and_then(|s| serde_json::from_str(&s).ok()) {
+        Some(d) => d,
+        None => return json!({"observed": {"error": "cannot read the replay file"}}),
+    };
+    let r = &doc["case"]["replay"];
+    match r["kind"].as_str() {
+        Some("c05-pair") => {
+            let (a, b): (T, T) = match (serde_json::from_value(r["a"].clone()), serde_json::from_value(r["b"].clone())) {
+                (Ok(a), Ok(b)) => (a, b),
+                _ => return json!({"observed": {"error": "terms do not parse"}}),
+            };
+            let d = defs();
+            let schemas = named_schemas(&d);
+            let mut cache: ExactCache = BTreeMap::new();
+            let (refv, witness, uni) = reference_subtype(&d, &a, &b, &mut cache);
+            let v0 = beff_subtype(&schemas, &a, &b, 0);
+            let v1 = beff_subtype(&schemas, &a, &b, 1);
+            let show_verdict = |v: &Result<(bool, bool, bool), String>| match v {
+                Ok(x) => json!({"a_sub_b": x.0, "b_sub_a": x.1, "same": x.2}),
+                Err(e) => json!({"error": e}),
+            };
+            let disagree = |v: &Result<(bool, bool, bool), String>| match (v, refv) {
+                (Ok(x), Tri::Yes) => !x.0,
+                (Ok(x), Tri::No) => x.0,
+                (Err(_), _) => true,
+                _ => false,
+            };
+            let order_dep = match (&v0, &v1) {
+                (Ok(x), Ok(y)) => x.0 != y.0,
+                _ => false,
+            };
+            json!({"reproduced": disagree(&v0) || disagree(&v1) || order_dep, "observed": {"a": show(&a), "b": show(&b), "reference": format!("{:?}", refv), "witness": witness.as_ref().map(show_v), "exact_values_enumerated": uni, "beff_A_registered_first": show_verdict(&v0), "beff_B_registered_first": show_verdict(&v1)}})
+        }
+        Some("c06-bdd-op") => {
+            let atoms: Vec<Atom> = r["atoms"].as_array().map(|v| v.iter().filter_map(atom_from_json).collect()).unwrap_or_default();
+            let k = atoms.len();
+            let full: u32 = if k == 5 { u32::MAX } else { (1u32 << (1u32 << k)) - 1 };
+            let a = match bdd_from_json(&r["a"]) {
+                Some(a) => a,
+                None => return json!({"observed": {"error": "diagram does not parse"}}),
+            };
+            let ta = tt(&a, &atoms);
+            let op = r["op"].as_str().unwrap_or("");
+            let (res, exp) = if op == "complement" {
+                (a.complement(), !ta & full)
+            } else {
+                let b = match bdd_from_json(&r["b"]) {
+                    Some(b) => b,
+                    None => return json!({"observed": {"error": "diagram does not parse"}}),
+                };
+                let tb = tt(&b, &atoms);
+                match op {
+                    "union" => (a.union(&b), ta | tb),
+                    "intersect" => (a.intersect(&b), ta & tb),
+                    _ => (a.diff(&b), ta & !tb & full),
+                }
+            };
+            let got = tt(&res, &atoms);
+            json!({"reproduced": got != exp, "observed": {"op": op, "result": format!("{:?}", res), "truth_table": format!("{:b}", got), "expected_truth_table": format!("{:b}", exp)}})
+        }
+        _ => json!({"observed": {"note": "this E-sem case records no replayable terms; re-running the check reproduces it deterministically"}}),
+    }
+}
+
+// ------------------------------------------------------------------------------------------------
 // C06 layer 1: explicit-state BFS over the real BddOps
 fn eval(b: &Bdd, atoms: &[Atom], asg: u32) -> bool {
     match b {
@@ -139,7 +238,7 @@ fn bdd_bfs(atoms: &[Atom], max_rounds: usize, out: &mut Out) -> BfsResult {
                         out.violation(
                             format!("C06 bdd: {} is not the set operation [{} atoms]", op, k),
                             format!("{}({:?}, {:?}) = {:?}: truth table {:b}, expected {:b}", op, a, b, r, got, exp),
-                            json!({"atoms": name, "op": op, "a": format!("{:?}", a), "b": format!("{:?}", b), "result": format!("{:?}", r)}),
+                            json!({"atoms": name, "op": op, "a": format!("{:?}", a), "b": format!("{:?}", b), "result": format!("{:?}", r), "replay": {"kind": "c06-bdd-op", "op": op, "atoms": atoms.iter().map(atom_json).collect::<Vec<_>>(), "a": bdd_json(&a), "b": bdd_json(&b)}}),
                         );
                     }
                     if sample.len() < 2 && transitions % 1009 == 7 {
@@ -153,7 +252,7 @@ fn bdd_bfs(atoms: &[Atom], max_rounds: usize, out: &mut Out) -> BfsResult {
             let c = all[i].0.complement();
             transitions += 1;
             if tt(&c, atoms) != (!all[i].1) & full {
-                out.violation(format!("C06 bdd: complement is not the set operation [{} atoms]", k), format!("complement({:?}) = {:?}", all[i].0, c), json!({"atoms": name, "a": format!("{:?}", all[i].0), "result": format!("{:?}", c)}));
+                out.violation(format!("C06 bdd: complement is not the set operation [{} atoms]", k), format!("complement({:?}) = {:?}", all[i].0, c), json!({"atoms": name, "a": format!("{:?}", all[i].0), "result": format!("{:?}", c), "replay": {"kind": "c06-bdd-op", "op": "complement", "atoms": atoms.iter().map(atom_json).collect::<Vec<_>>(), "a": bdd_json(&all[i].0)}}));
             }
             add(c, &mut seen, &mut all, out, "complement");
         }
@@ -243,6 +342,44 @@ fn size2(seed: u64) -> Vec<T> {
         out.push(T::Inter(vec![x.clone(), z.clone()]));
     }
     out
+}
+
+/// list algebra: A ranges over every intersection and union of two list types (arrays, tuples of length 0-2 and
+/// 3 with rest, with and without rest, over number / 1 / string), both operand orders; B over never and the list
+/// types themselves (quick: a fixed dozen of them)
+fn list_types() -> Vec<T> {
+    let l = vec![T::Num, T::NumLit(1), T::Str];
+    let mut out = vec![T::Tup(vec![], None)];
+    for x in &l {
+        out.push(T::Arr(Box::new(x.clone())));
+        out.push(T::Tup(vec![x.clone()], None));
+        out.push(T::Tup(vec![], Some(Box::new(x.clone()))));
+        for y in &l {
+            out.push(T::Tup(vec![x.clone(), y.clone()], None));
+            out.push(T::Tup(vec![x.clone()], Some(Box::new(y.clone()))));
+            for z in &l {
+                out.push(T::Tup(vec![x.clone(), y.clone()], Some(Box::new(z.clone()))));
+            }
+        }
+    }
+    out
+}
+fn list_algebra(thorough: bool) -> (Vec<T>, Vec<T>) {
+    let ls = list_types();
+    let mut a = vec![];
+    for x in &ls {
+        for y in &ls {
+            a.push(T::Inter(vec![x.clone(), y.clone()]));
+            a.push(T::Union(vec![x.clone(), y.clone()]));
+        }
+    }
+    let mut b = vec![T::Never];
+    if thorough {
+        b.extend(ls.iter().cloned());
+    } else {
+        b.extend(ls.iter().cloned().enumerate().filter(|(i, _)| i % 5 == 0).map(|(_, t)| t));
+    }
+    (a, b)
 }
 
 fn has_ref(t: &T) -> bool {
@@ -710,9 +847,26 @@ fn c05(tier: &str, seed: u64) -> Value {
     let stats = Mutex::new((0u64, 0u64, 0u64, 0u64, 0u64, 0usize)); // pairs, yes, no, unknown, witnesses, max universe
     let samples = Mutex::new(Vec::<Value>::new());
     let nthreads = 16usize;
-    let types_ref = &types;
-    let bs_ref = &bs;
     let d_ref = &d;
+    // phase 1: the general pools; phase 2: the list algebra (every intersection and union of two list types)
+    let mut phases: Vec<(Vec<T>, Vec<T>)> = vec![(types.clone(), bs.clone())];
+    phases.push(list_algebra(thorough));
+    // phase 3: a list type against every union of two list types (several negated atoms at once)
+    {
+        let ls = list_types();
+        let mut b = vec![];
+        for (i, x) in ls.iter().enumerate() {
+            for (j, y) in ls.iter().enumerate() {
+                if thorough || (i * 7 + j) % 5 == 0 {
+                    b.push(T::Union(vec![x.clone(), y.clone()]));
+                }
+            }
+        }
+        phases.push((ls, b));
+    }
+    for (ptypes, pbs) in &phases {
+    let types_ref = ptypes;
+    let bs_ref = pbs;
     std::thread::scope(|sc| {
         for th in 0..nthreads {
             let out = &out;
@@ -733,7 +887,7 @@ fn c05(tier: &str, seed: u64) -> Value {
                         let t_pair = std::time::Instant::now();
                         let (refv, witness, uni) = reference_subtype(d_ref, a, b, &mut exact_cache);
                         let t_ref = t_pair.elapsed();
-                        let detail = json!({"a": show(a), "b": show(b), "witness": witness.as_ref().map(show_v)});
+                        let detail = json!({"a": show(a), "b": show(b), "witness": witness.as_ref().map(show_v), "replay": {"kind": "c05-pair", "a": a, "b": b}});
                         let mut verdicts = vec![];
                         for order in [0u8, 1u8] {
                             match beff_subtype(&schemas, a, b, order) {
@@ -838,6 +992,7 @@ fn c05(tier: &str, seed: u64) -> Value {
             });
         }
     });
+    }
     if std::env::var("VERIF_DEBUG").is_ok() { eprintln!("pairs done"); }
     // laws on the recursive pool (need no universe)
     let mut out = out.into_inner().unwrap();
@@ -883,7 +1038,7 @@ fn c05(tier: &str, seed: u64) -> Value {
     json!({
         "violations": out.violations, "violation_counts": out.seen_keys, "violation_cases": out.cases,
         "pairs": st.0, "reference_yes": st.1, "reference_no": st.2, "reference_unknown": st.3, "witnesses": st.4, "max_universe": st.5,
-        "types_a": types.len(), "types_b": bs.len(), "law_checks": law_checks, "samples": samples.into_inner().unwrap(),
+        "types_a": phases.iter().map(|p| p.0.len()).sum::<usize>(), "types_b": phases.iter().map(|p| p.1.len()).sum::<usize>(), "list_algebra_types": phases[1].0.len(), "law_checks": law_checks, "samples": samples.into_inner().unwrap(),
     })
 }
 
@@ -927,6 +1082,36 @@ fn walk_printable(r: &Runtype, names: &BTreeSet<RuntypeUUID>, problems: &mut Vec
     }
 }
 
+/// what `X[K]` is for a list operand written as a term (None: TypeScript rejects it or the model does not cover it)
+fn expected_list_index(x: &T, k: &T) -> Option<T> {
+    match (x, k) {
+        (T::Arr(e), T::NumLit(_)) | (T::Arr(e), T::Num) => Some((**e).clone()),
+        (T::Tup(p, r), T::NumLit(n)) => {
+            if *n < 0 {
+                return None;
+            }
+            let n = *n as usize;
+            if n < p.len() {
+                Some(p[n].clone())
+            } else {
+                r.as_ref().map(|r| (**r).clone())
+            }
+        }
+        (T::Tup(p, r), T::Num) => {
+            let mut m: Vec<T> = p.clone();
+            if let Some(r) = r {
+                m.push((**r).clone());
+            }
+            if m.is_empty() {
+                None
+            } else {
+                Some(T::Union(m))
+            }
+        }
+        _ => None,
+    }
+}
+
 fn c07(tier: &str, seed: u64) -> Value {
     let thorough = tier == "thorough";
     let d = defs();
@@ -947,7 +1132,7 @@ fn c07(tier: &str, seed: u64) -> Value {
     } else {
         terms = terms.into_iter().enumerate().filter(|(i, _)| *i < 14 || i % 2 == (seed as usize) % 2 || *i > 300).map(|(_, t)| t).collect();
     }
-    let keys: Vec<T> = vec![T::StrLit("a".into()), T::StrLit("b".into()), T::Union(vec![T::StrLit("a".into()), T::StrLit("b".into())]), T::Str, T::Num, T::NumLit(0), T::NumLit(1)];
+    let keys: Vec<T> = vec![T::StrLit("a".into()), T::StrLit("b".into()), T::Union(vec![T::StrLit("a".into()), T::StrLit("b".into())]), T::Str, T::Num, T::NumLit(0), T::NumLit(1), T::NumLit(2), T::NumLit(3)];
     let w = sem_universe();
     let schemas = named_schemas(&d);
     let mut computed = 0u64;
@@ -959,6 +1144,7 @@ fn c07(tier: &str, seed: u64) -> Value {
     let mut postprocess_errors = 0u64;
     let mut reconverted_same = 0u64;
     let mut reconverted_differs = 0u64;
+    let mut model_checks = 0u64;
     let nterms = terms.len();
     let ys: Vec<usize> = (0..nterms).filter(|j| if thorough { j % 6 == (seed as usize) % 6 } else { j % 9 == (seed as usize) % 9 || *j < 14 }).collect();
     let mut check = |label: String, opname: &str, ctx: &mut SemTypeContext, s: &Rc<SemType>, out: &mut Out, counter: &mut usize, postprocess: bool| {
@@ -1129,7 +1315,29 @@ fn c07(tier: &str, seed: u64) -> Value {
                 Ok(s) => s,
                 Err(_) => continue,
             };
-            match std::panic::catch_unwind(std::panic::AssertUnwindSafe(|| ctx.indexed_access(sx.clone(), sk.clone()))) {
+            let access = std::panic::catch_unwind(std::panic::AssertUnwindSafe(|| ctx.indexed_access(sx.clone(), sk.clone())));
+            // operator model for list operands: the member type the operand declares at that position
+            if let (Ok(Ok(r)), Some(expected)) = (&access, expected_list_index(x, k)) {
+                let reference = Reference { defs: &d, opt: OptReading::AbsentOnly };
+                for v in &w {
+                    if let SV::Val(val) = v {
+                        model_checks += 1;
+                        let got = sem_mem(&ctx, r, v, 40);
+                        let want = reference.structural(&expected, val, 12);
+                        if let Ok(got) = got {
+                            if got != want {
+                                out.violation(
+                                    "C07 indexed access: the computed type is not the member type the operand declares at that position".into(),
+                                    format!("({})[{}]: {:?} is {} in the computed type, the declared member type {} says {}", show(x), show(k), val, got, show(&expected), want),
+                                    json!({"computed": format!("({})[{}]", show(x), show(k)), "value": format!("{:?}", val), "expected_member_type": show(&expected)}),
+                                );
+                                break;
+                            }
+                        }
+                    }
+                }
+            }
+            match access {
                 Ok(Ok(r)) => check(format!("({})[{}]", show(x), show(k)), "indexed access", &mut ctx, &r, &mut out, &mut counter, false),
                 Ok(Err(_)) => {}
                 Err(_) => out.violation("C07 indexed access panicked".into(), format!("({})[{}]", show(x), show(k)), json!({"x": show(x), "k": show(k)})),
@@ -1153,13 +1361,23 @@ fn c07(tier: &str, seed: u64) -> Value {
     }
     json!({
         "violations": out.violations, "violation_counts": out.seen_keys, "violation_cases": out.cases,
-        "computed_types": computed, "evaluations": evals, "operand_types": nterms, "distinct_nontrivial_rows": rows.len(),
+        "computed_types": computed, "evaluations": evals, "indexed_access_model_checks": model_checks, "operand_types": nterms, "distinct_nontrivial_rows": rows.len(),
         "pairs_where_postprocessing_widened": widened, "samples": samples, "postprocessing_errors_become_diagnostics": postprocess_errors, "reconverted_same_type": reconverted_same, "reconverted_not_same_type": reconverted_differs,
     })
 }
 
 fn main() {
     let args: Vec<String> = std::env::args().collect();
+    if args.len() == 3 && args[1] == "replay" {
+        std::panic::set_hook(Box::new(|_| {}));
+        let file = args[2].clone();
+        let h = std::thread::Builder::new().stack_size(512 << 20).spawn(move || replay(&file)).unwrap();
+        match h.join() {
+            Ok(v) => println!("{}", v),
+            Err(_) => println!("{}", json!({"reproduced": true, "observed": {"panic": "the replayed operation panicked"}})),
+        }
+        return;
+    }
     if args.len() < 4 {
         eprintln!("usage: sem <c05|c06|c07> <quick|thorough> <seed>");
         std::process::exit(2);
